@@ -448,15 +448,16 @@ def aggTypesOf (ft : FieldType) (funcs : List FuncType) : List AggType :=
 with the month calculator), at day granularity: a timestamp is an absolute day number, a segment
 is a month, a family is a day.  `lens` = lengths of the months from the epoch month. -/
 
-def monthStart (lens : List Nat) (m : Nat) : Nat := (lens.take m).foldl (· + ·) 0
+/-- first absolute day of month `m`. -/
+def monthStart : List Nat → Nat → Nat
+  | _, 0 => 0
+  | [], _ + 1 => 0
+  | l :: ls, m + 1 => l + monthStart ls m
 
-/-- (month index, day of month 1-based) of an absolute day; `fuel` months are scanned. -/
-def monthOfDay (lens : List Nat) (d : Nat) : Nat × Nat :=
-  let rec go (ls : List Nat) (m acc : Nat) : Nat × Nat :=
-    match ls with
-    | [] => (m, d - acc + 1)
-    | l :: rest => if d < acc + l then (m, d - acc + 1) else go rest (m + 1) (acc + l)
-  go lens 0 0
+/-- (month index, day of month 1-based) of an absolute day. -/
+def monthOfDay : List Nat → Nat → Nat × Nat
+  | [], d => (0, d + 1)
+  | l :: ls, d => if d < l then (0, d + 1) else ((monthOfDay ls (d - l)).1 + 1, (monthOfDay ls (d - l)).2)
 
 /-- is the family of absolute day `f` selected for the query `[qs, qe]` (absolute days):
 its segment (month) is walked iff `CalcSegmentTime(start) ≤ segmentTime ≤ end`; inside the segment
